@@ -35,14 +35,14 @@ func vhC28Map(ids []uint64) *Uint64Map {
 	return NewUint64Map(data)
 }
 
-//vh:steps=8000000 concurrent sched=400 preempt=1 preempt.thorough=2
+//vh:steps=8000000 concurrent sched=400 preempt=1 preempt.thorough=2 paths.thorough=1000000
 func VH_C28_EachItem() {
 	ids := []uint64{0, 1, 2, 3}
 	if vBool("shared") {
 		ids = []uint64{0, 4, 8, 3} // three ids in one bucket
 	}
 	m := vhC28Map(ids)
-	goroutines := 1 + vChoice("goroutines", 2)
+	goroutines := 1 + vChoice("goroutines", 2+vTier())
 	failAt := vChoice("failat", len(ids)+1) // == len(ids): never
 	sticky := vBool("sticky")
 	calls := 0
